@@ -5,7 +5,7 @@ wt="/tmp/try_${id}_${x}"
 out="/verif/seeded/${id}-${x}"
 mkdir -p "$out"
 # first confirmation copies the agent's delivery; later runs re-use the archived copy under seeded/
-if [ -f "$src/patch.diff" ]; then cp "$src/patch.diff" "$src/demo.py" "$src/meta.json" "$out/" || exit 2; fi
+if [ ! -f "$out/patch.diff" ] && [ -f "$src/patch.diff" ]; then cp "$src/patch.diff" "$src/demo.py" "$src/meta.json" "$out/" || exit 2; fi
 [ -f "$out/patch.diff" ] || { echo "no such seed: $id $x"; exit 2; }
 git -C /repo worktree remove --force "$wt" >/dev/null 2>&1
 # a seed written against an older /repo commit (its context was changed by a later fix: commit) names that commit in seeded/<id>-<X>/base
